@@ -46,6 +46,7 @@ class Failure:
     detail: str                # rendered diagnostic
     props: List[str] = field(default_factory=list)
     known: Optional[dict] = None
+    sub: str = ''              # for a failed callee precondition: the label of that requires clause
 
     def exit_text(self) -> str:
         return ' | '.join(norm(e['text']) for e in self.exits)
@@ -81,6 +82,9 @@ class Unit:
     def props_of(self, obligation: str) -> List[str]:
         """property ids served by an obligation label"""
         return list(self.props)
+
+    def props_of_failure(self, f: 'Failure') -> List[str]:
+        return self.props_of(f.obligation)
 
     def trusted_base(self) -> List[str]:
         return []
@@ -187,9 +191,13 @@ def map_failures(unit: Unit, out: Out, vr: VerusResult, text: str) -> List[Failu
         ob = f'{fid or "?"}#{clause}'
         exits = [{'file': i['file'], 'line': i['line'], 'text': i['text'], 'what': i.get('span_label')} for i in code]
         extra = ''
+        sub = ''
         if d.message.startswith('precondition') and contract:
+            sub = contract[0]['label'].split('#', 1)[1]
             extra = f" (callee precondition {contract[0]['label']})"
-        fails.append(Failure(unit.name, ob, d.message + extra, exits, d.rendered, props=unit.props_of(ob)))
+        fl = Failure(unit.name, ob, d.message + extra, exits, d.rendered, sub=sub)
+        fl.props = unit.props_of_failure(fl)
+        fails.append(fl)
     return fails
 
 
@@ -240,28 +248,43 @@ def run_unit(unit: Unit, repo: str = REPO, probe: bool = True, tag: str = '') ->
         ur.status = 'inconclusive'
         ur.reason = 'obligations failed while functions without a contract are present (needs contract, not a verdict): ' + \
                     '; '.join(out.uncontracted)
-    # vacuity probe
+    # vacuity probe: every function under contract, with `ensures false` appended, must be REJECTED.
+    # A probed callee would make its callers trivially provable, so functions that were not rejected
+    # in one pass are probed again on their own until no progress is made.
     if probe:
         try:
-            pout = unit.build(repo, probe=True)
-            ptext = pout.finish()
-            ppath = os.path.join(scratch(), f'{unit.name}{tag}_probe.rs')
-            with open(ppath, 'w', encoding='utf-8') as f:
-                f.write(ptext)
-            pvr = run_verus(ppath, multiple_errors=1, rlimit=unit.rlimit)
-            want = {fid for fid, r in pout.fns.items() if getattr(r, 'probe', False)}
-            got = set()
-            for fl in map_failures(unit, pout, pvr, ptext):
-                if fl.obligation.endswith('#probe'):
-                    got.add(fl.obligation.split('#')[0])
-            ur.probe = {'functions_probed': len(want), 'probes_rejected': len(got & want),
-                        'not_rejected': sorted(want - got), 'wall_s': round(pvr.wall_s, 2)}
-            if pvr.json is None or pvr.other_errors():
+            todo = True
+            want_all, got_all, passes, pw = None, set(), 0, 0.0
+            while True:
+                pout = unit.build(repo, probe=todo)
+                ptext = pout.finish()
+                ppath = os.path.join(scratch(), f'{unit.name}{tag}_probe{passes}.rs')
+                with open(ppath, 'w', encoding='utf-8') as f:
+                    f.write(ptext)
+                pvr = run_verus(ppath, multiple_errors=1, rlimit=unit.rlimit)
+                pw += pvr.wall_s
+                passes += 1
+                want = {fid for fid, r in pout.fns.items() if getattr(r, 'probe', False)}
+                if want_all is None:
+                    want_all = set(want)
+                if pvr.json is None or pvr.other_errors():
+                    ur.status = 'inconclusive'
+                    ur.reason = 'vacuity probe file did not compile: ' + ' | '.join(d.message for d in pvr.other_errors()[:3])
+                    break
+                got = set()
+                for fl in map_failures(unit, pout, pvr, ptext):
+                    if fl.obligation.endswith('#probe'):
+                        got.add(fl.obligation.split('#')[0])
+                got_all |= (got & want)
+                rest = want - got
+                if not rest or rest == want or passes > 6:
+                    break
+                todo = frozenset(rest)
+            ur.probe = {'functions_probed': len(want_all or ()), 'probes_rejected': len(got_all),
+                        'not_rejected': sorted((want_all or set()) - got_all), 'passes': passes, 'wall_s': round(pw, 2)}
+            if ur.status != 'inconclusive' and (want_all - got_all):
                 ur.status = 'inconclusive'
-                ur.reason = 'vacuity probe file did not compile: ' + ' | '.join(d.message for d in pvr.other_errors()[:3])
-            elif want - got:
-                ur.status = 'inconclusive'
-                ur.reason = 'vacuity probe: `ensures false` was ACCEPTED for ' + ', '.join(sorted(want - got)) + \
+                ur.reason = 'vacuity probe: `ensures false` was ACCEPTED for ' + ', '.join(sorted(want_all - got_all)) + \
                             ' (contradictory precondition or unsound assumption)'
         except (AnchorLost, LexError, Inconclusive) as e:
             ur.status = 'inconclusive'
